@@ -117,7 +117,7 @@ def families(tier):
         pre += ["x4 == %d" % NOP, "a4 == 0", "1 <= sizeA <= 2", "sizeB == 2", "a2 <= 2", "a3 <= 1", "named == 0 or x1 == 3", "t >= 4"]
         parts = parts_product(x1=range(5), x2=range(NOP))
     else:
-        pre += ["0 <= x4 <= %d" % NOP, "a4 >= -1"]
-        parts = parts_product(named=(0, 1), x1=range(5), x2=range(NOP), x3=range(NOP + 1))
+        pre += ["x4 == %d" % NOP, "a4 == 0", "1 <= sizeA <= 3", "1 <= sizeB <= 2", "a2 <= 2", "a3 <= 2"]
+        parts = parts_product(named=(0, 1), x1=range(5), x2=range(NOP))
     return [Family(name="ids", fn="tpl_ids", params=P, pre=pre, parts=parts,
                    twin_pre=["x1 == 1", "x2 == 4", "x3 == 8", "named == 0"], twin_args=[2, 2, 0, 1, 0, 4, 0, 8, 0, NOP, 0, 9])]
